@@ -242,6 +242,14 @@ def run(ctx):
             return {nm: [dict(m, fs=[it if isinstance(it, str) else recur(it, path + (nm,)) for it in m["fs"]]) for m in modes]}
 
         one(recur(cd), "name-recurs-on-a-path", {})
+    # wide and deep chains: every line with two or three decaying daughters, seven levels (127 and more decay lines in one graph)
+    def bushy(name, depth, width):
+        if depth == 0:
+            return name
+        return {name: [{"bf": 0.5, "fs": [bushy(f"{name}{k}", depth - 1, width) for k in range(width)] + ["x"], "model": "", "model_params": ""}]}
+
+    for depth, width in ((7, 2), (5, 3)) if tier == "quick" else ((7, 2), (5, 3), (8, 2), (4, 4)):
+        one(bushy("P", depth, width), "bushy", {})
     # fixed finding F17: names with HTML markup characters (only possible in hand-made chain dictionaries; always piped
     # through dot), alone, among table names, as mother, in nested lines, and as pure entity look-alikes
     special = ["a<b", "x&y", "p>q", "&amp;", "<SUB>", "a&b;c", "<<>>", "K&lt;", "&", "<", "q\"r", "it's", "&#773;"]
